@@ -59,16 +59,16 @@ Print Assumptions C14_dfxp_roundtrip_force.
 (* ---- SAMI read --------------------------------------------------------------------------------------------- *)
 (* EVERY document: the reader model is the grouping of the paragraphs by their language; a blank paragraph counts
    for the order of first appearance of its language but gives no cue - and therefore meets the oracle *)
-Theorem C14_sami_read_groups : forall default styles ps,
+Theorem C14_sami_read_groups_model_tags_partial : forall default styles ps,
   sami_read default styles ps
   = spec_group (map (fun t : str * scue * bool => (fst (fst t), if snd t then @nil scue else [snd (fst t)]))
                     (sami_tagged default styles ps)).
 Proof. exact sami_read_groups. Qed.
-Print Assumptions C14_sami_read_groups.
-Theorem C14_sami_read_meets_oracle : forall default styles ps,
+Print Assumptions C14_sami_read_groups_model_tags_partial.
+Theorem C14_sami_read_meets_oracle_model_tags_partial : forall default styles ps,
   ok_sami_read (sami_tagged default styles ps) (sami_read default styles ps) = true.
 Proof. exact sami_read_meets_oracle. Qed.
-Print Assumptions C14_sami_read_meets_oracle.
+Print Assumptions C14_sami_read_meets_oracle_model_tags_partial.
 (* partition: over all languages listed, every non-blank paragraph is counted exactly once *)
 Theorem C14_sami_read_partition : forall default styles ps,
   fold_right (fun lc n => (length (snd lc) + n)%nat) 0%nat (sami_read default styles ps)
@@ -77,12 +77,12 @@ Proof. exact sami_read_partition. Qed.
 Print Assumptions C14_sami_read_partition.
 (* how a <P> gets its language in the MODEL (one unfolding step each; they document find_lang, the oracle's tags are
    the generator's): a class without a language does not end the lookup *)
-Theorem C14_find_lang_class_falls_through : forall name value rest styles,
+Theorem C14_find_lang_class_falls_through_unfold : forall name value rest styles,
   str_eqb (lower name) (lit "lang") = false -> str_eqb (lower name) (lit "class") = true ->
   (dict_get (lower value) styles = None \/ dict_get (lower value) styles = Some None) ->
   find_lang ((name, value) :: rest) styles = find_lang rest styles.
 Proof. exact find_lang_class_falls_through. Qed.
-Print Assumptions C14_find_lang_class_falls_through.
+Print Assumptions C14_find_lang_class_falls_through_unfold.
 
 (* ---- SAMI write ----------------------------------------------------------------------------------------------- *)
 (* every paragraph goes to the end of a block with its own start or into a new block with its start;
@@ -163,10 +163,10 @@ Proof. exact find_lang_unique. Qed.
 Print Assumptions C14_find_lang_unique.
 (* the decidable oracle the harness evaluates on the real _find_lang says exactly the relational specification, and the
    model meets it *)
-Theorem C14_ok_find_lang_iff_spec : forall attrs styles r,
+Theorem C14_ok_find_lang_iff_spec_unfold : forall attrs styles r,
   ok_find_lang styles attrs r = true <-> spec_find_lang styles attrs r.
 Proof. exact ok_find_lang_iff_spec. Qed.
-Print Assumptions C14_ok_find_lang_iff_spec.
+Print Assumptions C14_ok_find_lang_iff_spec_unfold.
 Theorem C14_find_lang_meets_oracle : forall attrs styles, ok_find_lang styles attrs (find_lang attrs styles) = true.
 Proof. exact find_lang_meets_oracle. Qed.
 Print Assumptions C14_find_lang_meets_oracle.
@@ -232,34 +232,38 @@ Proof. exact merge_concurrent_idempotent. Qed.
 Print Assumptions C14_merge_idempotent.
 (* the writers that merge first (SinglePositioningDFXPWriter, LegacyDFXPWriter = merge_concurrent_captions, then the
    writer above): what they write is judged against the GROUPED set, and reading it back returns the grouped set *)
-Theorem C14_single_write_meets_oracle : forall force cs, nodes_nonempty cs -> NoDup (map fst cs) ->
+(* audit w7: the next three are `rewrite C14_merge_loop_is_grouping` + the wave-3 writer theorems; that the writers call
+   the merge first is in the model BY DEFINITION (model/LangsMerge.v single_write / legacy_merge_write), tied by stream B *)
+Theorem C14_single_write_meets_oracle_unfold : forall force cs, nodes_nonempty cs -> NoDup (map fst cs) ->
   ok_dfxp_write force (flat_set (spec_merge_set cs)) (doc_sset (single_write force cs)) = true.
 Proof. exact single_write_meets_oracle. Qed.
-Print Assumptions C14_single_write_meets_oracle.
-Theorem C14_legacy_merge_write_meets_oracle : forall force cs d, nodes_nonempty cs -> NoDup (map fst cs) ->
+Print Assumptions C14_single_write_meets_oracle_unfold.
+Theorem C14_legacy_merge_write_meets_oracle_unfold : forall force cs d, nodes_nonempty cs -> NoDup (map fst cs) ->
   mem [] (map fst cs) = false -> legacy_merge_write force cs = Ok d ->
   ok_dfxp_write force (flat_set (spec_merge_set cs)) (doc_sset d) = true.
 Proof. exact legacy_merge_write_meets_oracle. Qed.
-Print Assumptions C14_legacy_merge_write_meets_oracle.
-Theorem C14_single_write_roundtrip : forall default cs, nodes_nonempty cs -> NoDup (map fst cs) -> mem [] (map fst cs) = false ->
+Print Assumptions C14_legacy_merge_write_meets_oracle_unfold.
+Theorem C14_single_write_roundtrip_unfold : forall default cs, nodes_nonempty cs -> NoDup (map fst cs) -> mem [] (map fst cs) = false ->
   dfxp_read default (single_write [] cs) = flat_set (spec_merge_set cs).
 Proof. exact single_write_roundtrip. Qed.
-Print Assumptions C14_single_write_roundtrip.
+Print Assumptions C14_single_write_roundtrip_unfold.
 (* about the grouping itself, ALL cue lists: neighbours in the output have different spans; the spans are those of
    the input with neighbouring repetitions dropped; the texts are conserved in order; a list without equal
    neighbours is left alone *)
-Theorem C14_grouping_spans_differ : forall caps, spans_differ (spec_merge caps) = true.
+(* audit w7: the four `C14_grouping_*_unfold` statements are about the SPECIFICATION's grouping only (they validate
+   spec_merge; they say nothing about model or code) *)
+Theorem C14_grouping_spans_differ_unfold : forall caps, spans_differ (spec_merge caps) = true.
 Proof. exact spec_merge_spans_differ. Qed.
-Print Assumptions C14_grouping_spans_differ.
-Theorem C14_grouping_spans : forall caps : list (Z * Z * list (option str)), map fst (spec_merge caps) = squeeze (map fst caps).
+Print Assumptions C14_grouping_spans_differ_unfold.
+Theorem C14_grouping_spans_unfold : forall caps : list (Z * Z * list (option str)), map fst (spec_merge caps) = squeeze (map fst caps).
 Proof. exact spec_merge_spans. Qed.
-Print Assumptions C14_grouping_spans.
-Theorem C14_grouping_texts : forall caps, texts_of (spec_merge caps) = texts_of caps.
+Print Assumptions C14_grouping_spans_unfold.
+Theorem C14_grouping_texts_unfold : forall caps, texts_of (spec_merge caps) = texts_of caps.
 Proof. exact spec_merge_texts. Qed.
-Print Assumptions C14_grouping_texts.
-Theorem C14_grouping_no_runs_id : forall caps, spans_differ caps = true -> spec_merge caps = caps.
+Print Assumptions C14_grouping_texts_unfold.
+Theorem C14_grouping_no_runs_id_unfold : forall caps, spans_differ caps = true -> spec_merge caps = caps.
 Proof. exact spec_merge_no_runs_id. Qed.
-Print Assumptions C14_grouping_no_runs_id.
+Print Assumptions C14_grouping_no_runs_id_unfold.
 
 (* ---- non-vacuity ------------------------------------------------------------------------------------------------ *)
 Example C14_example_dfxp :
@@ -382,7 +386,7 @@ Proof.
   repeat constructor; cbn; intros H; repeat (destruct H as [H|H]; [discriminate|]); exact H.
 Qed.
 (* the hypothesis of C14_read_styles_last_block_wins (no OTHER block name coincides with c in lower case) and a repeated
-   class: the later block wins, the key keeps its first position; a list without equal neighbours (C14_grouping_no_runs_id) *)
+   class: the later block wins, the key keeps its first position; a list without equal neighbours (C14_grouping_no_runs_id_unfold) *)
 Example C14_example_read_styles :
   let sheet := [(lit "ENCC", lit "en"); (lit "fr", lit "fr"); (lit "ENCC", lit "en-US")] in
   (forall b, In b sheet -> lower (fst b) = lower (lit "ENCC") -> fst b = lit "ENCC")
